@@ -210,12 +210,14 @@ CLAIMED = {
          "field and every outcome of the encoder's table search the decoder emits exactly that field with its sensitivity and the "
          "two dynamic tables are identical again; searchTable_spec ties Encoder.searchTable to Decoder.at) and HEADER-BLOCK round "
          "trip (block_roundtrip: Decoder.Write on the encoder's output for any field list emits the list, no error, nothing held "
-         "back, tables identical), eviction exactness (add_exact, exact_fit_kept); decoder and encoder "
+         "back, tables identical) also ACROSS ANY SCHEDULE of SetMaxDynamicTableSize calls before the block "
+         "(block_roundtrip_after_resize: the pending-change invariant Pend, the size-update prologue, eviction composes as "
+         "fit_fit), eviction exactness (add_exact, exact_fit_kept); decoder and encoder "
          "are total functions. Model tied to the code by exact differentials on encoder sequences and on the decoder over encoder "
          "output / mutations / random bytes / fragmentations; ORACLES: round trip with identical tables, fragment independence"),
-   note=("PARTIAL: integer, Huffman, string, field and header-block round trips with table synchrony are theorems (for blocks without "
-         "a pending table-size change); round trips across SetMaxDynamicTableSize schedules, the decoder's verdict on arbitrary bytes "
-         "and fragment independence are decided by the oracles over generated inputs, not yet by theorems. "
+   note=("PARTIAL: the round-trip half of the statement is a theorem (integers, Huffman, strings, fields, header blocks, table-size "
+         "schedules, table synchrony; SetMaxDynamicTableSizeLimit schedules are not covered); the decoder's verdict on arbitrary "
+         "bytes and fragment independence are decided by the oracles over generated inputs, not yet by theorems. "
          "Trusted: Lean kernel + standard axioms (decide +kernel uses kernel evaluation, no extra axioms); translator; harness. The "
          "server links x/net v0.19.0's copy of hpack, not this one. Found and fixed D6 and D12"),
    technique="Lean 4 theorems over a full executable model + regenerated tables + differential with round-trip / fragmentation oracles",
